@@ -139,3 +139,23 @@ Proof.
   - intros j Hj. destruct (Rlt_dec e (lprod (firstn j us))) as [Hlt|_]; [|reflexivity].
     exfalso. assert (Hm := lprod_firstn_mono us Hus (S k) j ltac:(lia)). lra.
 Qed.
+
+Lemma lprod_def : lprod [] = 1 /\ forall u l, lprod (u :: l) = u * lprod l.
+Proof. split; reflexivity. Qed.
+
+Lemma knuth_loop_def : forall e p us k,
+  knuth_loop e p us k =
+  if Rlt_dec e p then
+    match us with [] => None | u :: us' => knuth_loop e (p * u) us' (S k) end
+  else Some k.
+Proof. intros e p [|u us] k; reflexivity. Qed.
+
+Lemma knuth_def : forall e,
+  knuth e [] = None /\ forall u0 us, knuth e (u0 :: us) = knuth_loop e u0 us 0.
+Proof. intros. split; reflexivity. Qed.
+
+Lemma count_above_def : forall e us,
+  count_above e us =
+  length (filter (fun j => if Rlt_dec e (lprod (firstn j us)) then true else false)
+                 (seq 1 (length us))).
+Proof. reflexivity. Qed.
